@@ -58,3 +58,50 @@ package rapid
 //@   loop range agentPaths: invariant [one-exit-channel-per-path] delta(ExitChannelCreated) == rangeindex + 1
 //@   loop range agentPaths: invariant [exec-in-the-past] last(ExecAny) <= now()
 //@   loop range agentPaths: invariant [not-yet] delta(AwaitRegistered) == 0 && delta(AwaitRegisteredOK) == 0 && delta(CountOverLimit) == 0 && delta(LaunchErrorRecorded) == 0
+
+// C15: the lifecycle-event helpers send exactly one event for a valid phase
+//@ spec validPhase(phase interop.LifecyclePhase) bool = phase == interop.LifecyclePhaseInit || phase == interop.LifecyclePhaseInvoke
+//@ func sendInitStartLogEvent
+//@   requires execCtx != nil && validPhase(phase)
+//@   ensures [one-init-start] delta(EvInitStart) == 1 && delta(EvInitReport) == 0 && delta(EvInitRuntimeDone) == 0 && delta(EvExtensionInit) == 0
+//@ func sendInitReportLogEvent
+//@   requires execCtx != nil && validPhase(phase)
+//@   ensures [one-init-report] delta(EvInitReport) == 1 && delta(EvInitStart) == 0 && delta(EvInitRuntimeDone) == 0 && delta(EvExtensionInit) == 0
+//@ func getFirstFatalError
+//@   requires execCtx != nil
+//@ func sendInitRuntimeDoneLogEvent
+//@   requires execCtx != nil && validPhase(phase)
+//@   ensures [one-runtime-done-with-status] delta(EvInitRuntimeDone) == 1 && delta(EvInitRuntimeDoneSuccess) == ite(status == telemetry.RuntimeDoneSuccess, 1, 0) && delta(EvInitStart) == 0 && delta(EvInitReport) == 0 && delta(EvExtensionInit) == 0
+//@ func logAgentsInitStatus
+//@   requires execCtx != nil
+//@   ensures [one-line-per-known-extension] delta(AgentsInfoRead) == 1 && delta(EvExtensionInit) == len(lastret(AgentsInfoRead)) && delta(EvInitStart) == 0 && delta(EvInitReport) == 0 && delta(EvInitRuntimeDone) == 0
+//@   loop range execCtx.registrationService.AgentsInfo(): invariant delta(AgentsInfoRead) == 1 && delta(EvExtensionInit) == rangeindex + 1 && 0 <= rangeindex + 1 && rangeindex + 1 <= len(lastret(AgentsInfoRead)) && delta(EvInitStart) == 0 && delta(EvInitReport) == 0 && delta(EvInitRuntimeDone) == 0
+
+//@ func doRuntimeDomainInit$1
+//@   requires execCtx != nil
+//@   ensures [status-lines-only] delta(EvInitStart) == 0 && delta(EvInitReport) == 0 && delta(EvInitRuntimeDone) == 0
+//@ func doRuntimeDomainInit$2
+//@   requires execCtx != nil && validPhase(phase)
+//@   ensures [reports-recorded-status] delta(EvInitRuntimeDone) == 1 && delta(EvInitRuntimeDoneSuccess) == ite(old(runtimeDoneStatus) == telemetry.RuntimeDoneSuccess, 1, 0) && delta(EvInitStart) == 0 && delta(EvInitReport) == 0 && delta(EvExtensionInit) == 0
+
+//@ func newShutdownContext
+//@   modifies nothing
+//@   ensures [new] r0 != nil && fresh(r0) && !r0.shuttingDown && r0.agentsAwaitingExit != nil && r0.runtimeDomainExited != nil
+
+// the execution context is wired to one registration service and its two flows
+//@ spec ctxWired(c *rapidContext) bool = typeis(c.registrationService, *core.registrationServiceImpl) && ref(c.registrationService) != 0 && regWired(c.registrationService.(*core.registrationServiceImpl)) && isInvokeFlow(c.invokeFlow) && isInitFlow(c.initFlow) && c.shutdownContext != nil
+//@ typeinv rapidContext c
+//@   inv ctxWired(c)
+
+// C03 + C15: the initialisation skeleton
+//@ func doRuntimeDomainInit
+//@   requires execCtx != nil && validPhase(phase) && sbInfoFromInit.EnvironmentVariables != nil
+//@   ensures [init-start-then-report] delta(EvInitStart) == 1 && delta(EvInitReport) == 1 && first(EvInitStart) < first(EvInitReport)
+//@   ensures [at-most-one-runtime-done-inside] delta(EvInitRuntimeDone) <= 1 && (delta(EvInitRuntimeDone) == 1 ==> first(EvInitStart) < first(EvInitRuntimeDone) && first(EvInitRuntimeDone) < first(EvInitReport))
+//@   ensures [extension-lines-before-report] delta(EvExtensionInit) >= 1 ==> first(EvInitStart) < first(EvExtensionInit) && last(EvExtensionInit) < first(EvInitReport)
+//@   ensures [success-status-is-truthful] delta(EvInitRuntimeDoneSuccess) >= 1 ==> delta(AwaitRestoreReadyOK) == 1 && delta(AwaitInitAgentsReady) == delta(AwaitInitAgentsReadyOK)
+//@   ensures [runtime-started-only-after-extensions-registered] delta(InitExtensions) >= 1 && delta(ExecRuntime) >= 1 ==> delta(InitExtensionsOK) == 1 && last(InitExtensionsOK) < first(ExecRuntime)
+//@   ensures [at-most-one-runtime] delta(ExecRuntime) <= 1 && delta(InitExtensions) <= 1
+//@   ensures [completion-order] r0 == nil ==> execCtx.initDone && delta(ExecRuntime) == 1 && delta(AwaitRestoreReadyOK) == 1 && delta(RegistrationTurnOff) == 1 && first(ExecRuntime) < first(AwaitRestoreReady) && last(AwaitRestoreReadyOK) < first(RegistrationTurnOff)
+//@   ensures [ready-count-is-registered-count] r0 == nil && delta(SetInitAgentsCount) >= 1 ==> delta(SetInitAgentsCount) == 1 && delta(RegisteredSize) == 1 && lastarg(SetInitAgentsCount, 1) == lastret(RegisteredSize) && first(RegistrationTurnOff) < first(SetInitAgentsCount) && delta(AwaitInitAgentsReadyOK) == 1 && first(SetInitAgentsCount) < first(AwaitInitAgentsReady)
+//@   ensures [generation-bumped] execCtx.runtimeDomainGeneration == (old(execCtx.runtimeDomainGeneration) + 1) % 4294967296
